@@ -1004,7 +1004,12 @@ class Lexer:
                 )
                 outputs.append([])
             del outputs[-1]
-            last_output = f"{conditions[-1]} {self.datapack.add_arrow_function(name, command_tokens[-1], tokenizer, prefix=prefix)}"
+            last_output = self.datapack.add_private_function(
+                name,
+                f"{conditions[-1]} {self.datapack.add_arrow_function(name, command_tokens[-1], tokenizer, prefix=prefix)}".replace(
+                    "run execute ", ""
+                ),
+            )
         else:  # 'else'
             for condition, command_token in zip(conditions, command_tokens):
                 outputs[-1].extend(
